@@ -144,11 +144,12 @@ def run(ctx, prog):
                                          util.Step('truncate', mg, eff.blocks(mg, 'truncate'))], no_reorder=True)
     tr = mg.calls_to('re:::truncate$')
     if tr:
-        ctx.inst('C06.R2', mg.short, 'truncates the returned vector to k', flow.render(mv.of_operand(tr[0].args[1])) == 'arg:k' and flow.render(mv.of_operand(tr[0].args[0])) == 'var:final_results'
-                 and flow.render(mv.of_local(0)) == 'var:final_results', 'truncate(%s, %s); returns %s' % (flow.render(mv.of_operand(tr[0].args[0])), flow.render(mv.of_operand(tr[0].args[1])), flow.render(mv.of_local(0))))
+        tv_ = flow.render(mv.of_operand(tr[0].args[0]))
+        ctx.inst('C06.R2', mg.short, 'truncates the returned vector to k', flow.render(mv.of_operand(tr[0].args[1])) == 'arg:k' and tv_.startswith('var:')
+                 and flow.render(mv.of_local(0)) == tv_, 'truncate(%s, %s); returns %s' % (flow.render(mv.of_operand(tr[0].args[0])), flow.render(mv.of_operand(tr[0].args[1])), flow.render(mv.of_local(0))))
     col = mg.calls_to('re:Iterator::collect$')
     src = flow.render(mo.of_operand(col[0].args[0])) if col else ''
-    ctx.inst('C06.R2', mg.short, 'results come out of the id-keyed map', 'HashMap' in mg.locals[mg.var_local('merged')[0]] if mg.var_local('merged') else False and 'HashMap' in src, 'collect source: %s' % src[:120])
+    ctx.inst('C06.R2', mg.short, 'results come out of the id-keyed map', bool(col) and 'HashMap' in src and any('HashMap<u64' in mg.locals[l_] for l_ in mg.varnames), 'collect source: %s' % src[:120])
     hot_ins = [c for c in mg.calls if c.callee and re.search(r'HashMap<.*>::insert$|HashMap::insert$', c.callee)]
     cold_ins = [c for c in mg.calls if c.callee and re.search(r'Entry<.*>::or_insert$|Entry::or_insert$', c.callee)]
     ctx.inst('C06.R2', mg.short, 'hot entries first, cold entries only for absent ids', bool(hot_ins) and bool(cold_ins) and all(mg.dominates(h.bb, c.bb) or c.bb in mg.reach([h.bb]) for h in hot_ins for c in cold_ins)
